@@ -195,6 +195,13 @@ func (g *Gen) loadContractFile(path string) error {
 			}
 			g.typeInvs = append(g.typeInvs, &TypeInv{Pkg: pkg, Type: tn, Clause: cl})
 			lastClause = cl
+		case "recover-handlers":
+			// recover-handlers [C10]: generate the structural obligations on deferred recover handlers
+			for _, m := range regexp.MustCompile(`\[([A-Z0-9, ]+)\]`).FindAllStringSubmatch(rest, -1) {
+				for _, pr := range parseProps(m[1]) {
+					g.recoverProps[pr] = true
+				}
+			}
 		case "crash-root":
 			for _, f := range strings.Fields(rest) {
 				g.crashRoots[pkg+"."+f] = true
@@ -302,11 +309,11 @@ func (g *Gen) loadContractFile(path string) error {
 			}
 		case "at-call":
 			// at-call <callee> assert label[Cnn]: expr
-			callee, r2 := splitWord(rest)
-			w3, r3 := splitWord(r2)
-			if w3 != "assert" {
+			ai := strings.Index(rest, " assert ")
+			if ai < 0 {
 				return fmt.Errorf("%s:%d: at-call <callee> assert label[..]: expr", path, ln)
 			}
+			callee, r3 := strings.TrimSpace(rest[:ai]), strings.TrimSpace(rest[ai+8:])
 			cl, err := parseClause("assert", r3, path, ln)
 			if err != nil {
 				return err
